@@ -160,6 +160,8 @@ func VxC19RoundTrip() {
 	dst := NewMultiIndexedArrayInMemoryStore()
 	err = sc.ReadInto(bytes.NewReader(data), dst)
 	vxReach("read-back")
+	vxObserve("bytes-written", string(data))
+	vxObserve("facts-read-back", dst.EstimateFactCount())
 	vxAssert(err == nil, "readinto-no-error")
 	vxAssert(dst.EstimateFactCount() == len(atoms), "readinto-same-count")
 	for _, a := range atoms {
